@@ -872,6 +872,82 @@ func typePredicates(repo string) (string, error) {
 		"def typePreds : List (String × String × Bool) :=\n  [" + strings.Join(preds, ",\n   ") + "]\n", nil
 }
 
+// the hydrate functions of ast.go: in source order, the registration of the entity itself (`g.add`),
+// every loop over a descriptor list with the hydrate function it feeds, and the other graph calls
+func hydratePhases(repo string) (string, error) {
+	f := parse(filepath.Join(repo, "ast.go"))
+	var out []string
+	for _, name := range []string{"hydrateFile", "hydrateMessage", "hydrateEnum", "hydrateService", "hydrateMethod", "hydrateEnumValue", "hydrateField", "hydrateOneOf", "hydrateExtension"} {
+		fd := findFunc(f, "graph", name)
+		if fd == nil {
+			return "", fmt.Errorf("ast.go: %s not found", name)
+		}
+		// locals initialised from a descriptor getter: `enums := f.GetEnumType()`
+		getterOf := map[string]string{}
+		var steps []string
+		callee := func(n ast.Node, prefix string) string {
+			found := ""
+			ast.Inspect(n, func(x ast.Node) bool {
+				if c, ok := x.(*ast.CallExpr); ok && found == "" {
+					if t := exprText(c.Fun); strings.HasPrefix(t, prefix) {
+						found = strings.TrimPrefix(t, "g.")
+					}
+				}
+				return found == ""
+			})
+			return found
+		}
+		getter := func(e ast.Expr) string {
+			if id, ok := e.(*ast.Ident); ok {
+				return getterOf[id.Name]
+			}
+			if c, ok := e.(*ast.CallExpr); ok {
+				if sel, ok := c.Fun.(*ast.SelectorExpr); ok {
+					return sel.Sel.Name
+				}
+			}
+			return exprText(e)
+		}
+		for _, st := range fd.Body.List {
+			switch x := st.(type) {
+			case *ast.AssignStmt:
+				if len(x.Lhs) == 1 && len(x.Rhs) == 1 {
+					if id, ok := x.Lhs[0].(*ast.Ident); ok {
+						if c, ok := x.Rhs[0].(*ast.CallExpr); ok {
+							if sel, ok := c.Fun.(*ast.SelectorExpr); ok && strings.HasPrefix(sel.Sel.Name, "Get") {
+								getterOf[id.Name] = sel.Sel.Name
+							}
+						}
+					}
+					if t := exprText(x.Lhs[0]); strings.HasSuffix(t, ".fqn") {
+						steps = append(steps, fmt.Sprintf("(%q, %q)", "fqn", callee(x.Rhs[0], "fullyQualifiedName")))
+					}
+				}
+				if c := callee(x, "g.mustSeen"); c != "" {
+					steps = append(steps, fmt.Sprintf("(%q, %q)", "resolve", exprText(x.Rhs[0])))
+				}
+			case *ast.ExprStmt:
+				t := exprText(x.X)
+				if strings.HasPrefix(t, "g.add(") {
+					steps = append(steps, `("add", "")`)
+				} else if strings.HasPrefix(t, "g.hydrate") {
+					steps = append(steps, fmt.Sprintf("(%q, %q)", "call", callee(x, "g.hydrate")))
+				}
+			case *ast.RangeStmt:
+				h := callee(x.Body, "g.hydrate")
+				if h == "" {
+					h = callee(x.Body, "g.mustSeen")
+				}
+				steps = append(steps, fmt.Sprintf("(%q, %q)", getter(x.X), h))
+			}
+		}
+		out = append(out, fmt.Sprintf("(%q, [%s])", name, strings.Join(steps, ", ")))
+	}
+	return "/-- ast.go: the hydrate functions, in source order: (\"fqn\", how the name is built), (\"add\", \"\") the registration of the entity,\n" +
+		"    (descriptor list ranged over, function each element is handed to), (\"resolve\", …) look-ups made on the spot, (\"call\", …) -/\n" +
+		"def hydratePhases : List (String × List (String × String)) :=\n  [" + strings.Join(out, ",\n   ") + "]\n", nil
+}
+
 func genCode(repo string) (string, error) {
 	var b strings.Builder
 	b.WriteString("import PgsVerif.Model.FilePath\nimport PgsVerif.Model.Context\nimport PgsVerif.Model.Params\nimport PgsVerif.Generated.Tables\n")
@@ -915,7 +991,7 @@ func genCode(repo string) (string, error) {
 		}
 		b.WriteString(t + "\n")
 	}
-	for _, g := range []func(string) (string, error){nameHelpers, acceptOrders, typePredicates} {
+	for _, g := range []func(string) (string, error){nameHelpers, acceptOrders, typePredicates, hydratePhases} {
 		t, err := g(repo)
 		if err != nil {
 			notes = append(notes, err.Error())
